@@ -22,7 +22,21 @@ let first_bad (f : func) : string =
     match List.find_opt (fun i -> not (instr_ok f i)) f.f_instrs with
     | Some i ->
         let what =
-          if not (List.for_all (is_start f) (succs f i)) then "target-not-instruction-start" else "index-out-of-range"
+          if not (List.for_all (is_start f) (succs f i)) then begin
+            (* reporting only: a target equal to the code length is its own class *)
+            let bad = List.filter (fun t -> not (is_start f t)) (succs f i) in
+            if List.for_all (fun t -> int_of_n t = int_of_n f.f_len) bad then "target-is-end-of-code"
+            else "target-not-instruction-start"
+          end
+          else begin
+            (* reporting only: an index that is inside the pool but names an entry of another kind *)
+            let nvals = List.length f.f_vals in
+            let bad = List.filter (fun rv -> not (idx_ok f rv)) i.i_idx in
+            let in_pool (r, v) =
+              (match r with RVal | RSym | RCall | RCallBC | RCallNT -> true | _ -> false) && int_of_n v < nvals
+            in
+            if bad <> [] && List.for_all in_pool bad then "pool-entry-wrong-kind" else "index-out-of-range"
+          end
         in
         Printf.sprintf "%s op=%d off=%d" what (int_of_n i.i_op) (int_of_n i.i_off)
     | None -> (
